@@ -29,6 +29,10 @@ Code shape (what mirrors what):
 * `checkRestart`   ↔ `_check_restart` (called with `new_sols`, *after* `_itrs += 1`);
 * `gather`         ↔ `ranking_values[indices]` (NumPy raises IndexError when out of range);
 * `sampleElite`    ↔ `archive.sample_elites(1)["solution"][0]` (IndexError on an empty archive);
+* `stepActs`, `pointAfterUpdate` ↔ the gradient step of the arborescence emitter
+                     (`if num_parents > 0: … self._grad_opt.step(new_mean - theta)`), which
+                     sits between `opt.tell` and the restart check; only its *position*
+                     matters here (its value is property C19);
 * `restartActs`    ↔ the body of the `if` at the end of `tell`;
 * `tell`           ↔ `tell`;  `ask` ↔ `ask`;  `tellDqd` ↔ `tell_dqd` (only the fact that
                      gradients are now present matters here).
@@ -89,18 +93,26 @@ def mkCfg (kind : Kind) (sel : String) (rule : RuleArg) (batch : Nat) : Except E
 
 /-! ## state -/
 
+/-- where the emitter's search currently sits (the mean of the optimizer for
+EvolutionStrategyEmitter, the solution point `ask_dqd()` of the gradient
+optimizer for GradientArborescenceEmitter): still at `x0`, exactly on the
+solution of an elite, or somewhere else (`moved`: after an update) -/
+inductive Point | initial | elite (tok : Nat) | moved
+deriving DecidableEq, Repr
+
 /-- `itrs`, `restarts`: the public counters.  `hasJac`: `_jacobian_batch is not None`
 (GradientArborescenceEmitter only).  `lastAsk`: ghost variable — the rows the
 last `ask` returned (the code does not store them; the protocol, property C04,
-makes the caller tell exactly these rows). -/
+makes the caller tell exactly these rows).  `point`: where the search sits. -/
 structure St where
   itrs     : Nat
   restarts : Nat
   hasJac   : Bool
   lastAsk  : Option (List Nat)
+  point    : Point
 deriving DecidableEq, Repr
 
-def init : St := ⟨0, 0, false, none⟩
+def init : St := ⟨0, 0, false, none, .initial⟩
 
 /-- where an optimizer is re-centred: on the solution of an elite, or on the
 zero vector (the coefficient distribution of the arborescence emitter) -/
@@ -113,6 +125,8 @@ inductive Act (ν : Type)
   | rank (sols : List Nat) (statuses : List Nat)
   /-- `opt.tell(indices, ranking_values, num_parents)` -/
   | optTell (indices : List Nat) (values : List ν) (numParents : Nat)
+  /-- `grad_opt.step(new_mean - theta)` (arborescence emitter, only with parents) -/
+  | gradStep
   /-- `opt.check_stop(ranking_values[indices])` -/
   | checkStop (sorted : List ν)
   /-- `archive.sample_elites(1)` -/
@@ -191,6 +205,24 @@ def gather {ν : Type} (values : List ν) : List Nat → Option (List ν)
 def sampleElite (arch : List Nat) (rnd : Nat) : Option Nat :=
   if h : 0 < arch.length then some (arch[rnd % arch.length]'(Nat.mod_lt _ h)) else none
 
+/-- `if num_parents > 0: … self._grad_opt.step(…)` — arborescence emitter only -/
+def stepActs {ν : Type} (cfg : Cfg) (np : Nat) : List (Act ν) :=
+  if cfg.kind = .gae ∧ 0 < np then [.gradStep] else []
+
+/-- where the search sits after the update and before the restart check: the
+optimizer of EvolutionStrategyEmitter adapts its mean on every `opt.tell`; the
+solution point of the arborescence emitter moves only when there are parents -/
+def pointAfterUpdate (cfg : Cfg) (np : Nat) (p : Point) : Point :=
+  match cfg.kind with
+  | .es => .moved
+  | .gae => if 0 < np then .moved else p
+
+/-- the calls that hand the ranking over (and, for the arborescence emitter, the
+gradient step), in call order -/
+def handoffActs {ν : Type} (cfg : Cfg) (t : TellIn ν) (np : Nat) (sorted : List ν) : List (Act ν) :=
+  [.rank t.sols t.statuses, .optTell (t.rank t.sols t.statuses).1 (t.rank t.sols t.statuses).2 np]
+    ++ stepActs cfg np ++ [.checkStop sorted]
+
 /-- the body of `if opt.check_stop(…) or self._check_restart(new_sols):` -/
 def restartActs {ν : Type} (kind : Kind) (e : Nat) : List (Act ν) :=
   match kind with
@@ -204,20 +236,25 @@ def tell {ν : Type} (cfg : Cfg) (s : St) (t : TellIn ν) : St × Res ν :=
   -- arborescence emitter: gradients must have been supplied
   else if cfg.kind = .gae ∧ s.hasJac = false then (s, .err .runtime [])
   else
-    let s1 := { s with itrs := s.itrs + 1 }
     let ns := newSols t.statuses
     let iv := t.rank t.sols t.statuses
     let np := numParents cfg t.statuses
-    let a0 : List (Act ν) := [.rank t.sols t.statuses, .optTell iv.1 iv.2 np]
     match gather iv.2 iv.1 with
-    | none => (s1, .err .index a0)
+    | none =>
+      -- IndexError from `ranking_values[indices]` / `data["solution"][indices]`: raised after
+      -- `opt.tell` and before any gradient step
+      ({ s with itrs := s.itrs + 1,
+                point := match cfg.kind with | .es => .moved | .gae => s.point },
+        .err .index [.rank t.sols t.statuses, .optTell iv.1 iv.2 np])
     | some sorted =>
-      let a1 := a0 ++ [.checkStop sorted]
+      let s1 := { s with itrs := s.itrs + 1, point := pointAfterUpdate cfg np s.point }
+      let a1 := handoffActs cfg t np sorted
       if t.stop sorted || checkRestart cfg.rule s1.itrs ns then
         match sampleElite t.arch t.rnd with
         | none => (s1, .err .index (a1 ++ [.sampleElite]))
         | some e =>
-          ({ s1 with restarts := s1.restarts + 1 }, .ok ⟨np, true, a1 ++ restartActs cfg.kind e⟩)
+          ({ s1 with restarts := s1.restarts + 1, point := .elite e },
+            .ok ⟨np, true, a1 ++ restartActs cfg.kind e⟩)
       else (s1, .ok ⟨np, false, a1⟩)
 
 /-- `ask` (`rows` is what the optimizer's `ask` produced, mapped to solution space) -/
